@@ -364,7 +364,10 @@ def rand_poly_spec(rng, zmode=None, nholes=None):
     for j in range(nh):
         hx, hy = cx + (j - 0.5) * rad * 0.25, cy
         if rng.random() < 0.8:
-            hs.append({'o': rand_ring(rng, round(hx * S) / S, hy, max(rad * 0.2, 0.75), rng.randint(3, 5))})
+            # a hole's Z is independent of the shell's: shell 2-D with a 3-D hole and the other way round
+            # (mechanism class: dimension decided from the shell and applied to every ring)
+            hs.append({'o': rand_ring(rng, round(hx * S) / S, hy, max(rad * 0.2, 0.75), rng.randint(3, 5),
+                                      rng.choice([None, zmode, 'z']))})
         else:
             x0, y0 = round(hx * S) / S, hy
             hs.append({'box': ((x0, y0 + 0.5, None), (x0 + 0.5, y0, None))})
@@ -408,7 +411,7 @@ def rand_spec(rng, kind, zmode=None):
         z1, z2 = (rng.choice([None, 2.0]), rng.choice([None, 3.0, 0.0])) if zmode else (None, None)
         sp = {'kind': 'box', 'nw': (x, y + h, z1), 'se': (x + w, y, z2)}
         if rng.random() < 0.4:
-            sp['holes'] = [{'o': rand_ring(rng, x + w / 2, y + h / 2, 0.75, 4)}]
+            sp['holes'] = [{'o': rand_ring(rng, x + w / 2, y + h / 2, 0.75, 4, rng.choice([None, zmode, 'z']))}]
     else:
         raise KeyError(kind)
     sp['dt'] = rng.choice(DTS)
@@ -434,6 +437,10 @@ def curved_corpus():
     out.append({'kind': 'wedge', 'c': (10.125, 10.125, None), 'r0': 1000.0, 'r1': 90000.0, 'a0': 0.0, 'a1': 90.0,
                 'holes': [sqh]})
     out.append({'kind': 'ellipse', 'c': (10.125, 10.125, None), 'a': 90000.0, 'b': 50000.0, 'rot': 45.0, 'holes': [sqh]})
+    sqhz = {'o': [(x, y, 60.0) for x, y, _ in sqh['o']]}      # 3-D hole in a 2-D curved shell
+    out.append({'kind': 'circle', 'c': (10.125, 10.125, None), 'r': 50000.0, 'holes': [sqhz]})
+    out.append({'kind': 'ring', 'c': (10.125, 10.125, None), 'r0': 30000.0, 'r1': 60000.0, 'holes': [sqhz]})
+    out.append({'kind': 'ellipse', 'c': (10.125, 10.125, None), 'a': 90000.0, 'b': 50000.0, 'rot': 45.0, 'holes': [sqhz]})
     for j, sp in enumerate(out):
         sp['dt'] = DTS[j % len(DTS)]
         sp['props'] = copy.deepcopy(PROPS[j % len(PROPS)])
